@@ -18,7 +18,7 @@ import (
 )
 
 func TestZZBoundedC09(t *testing.T) {
-	fmt.Println("BOUNDED-BOUND: 6 instants x 6 time-string spellings x 3 valuer zones x 6 expression shapes through Reduce; oracle: the folded literal equals the instant the spelling was produced from combined with the other operand")
+	fmt.Println("BOUNDED-BOUND: 6 instants x 6 time-string spellings x 3 valuer zones x 6 expression shapes (8 for spellings with an offset: s > s', s < s' across different offsets) through Reduce; oracle: the folded literal equals the instant the spelling was produced from combined with the other operand")
 	now := time.Date(2020, 5, 6, 7, 8, 9, 123456789, time.UTC)
 	instants := []time.Time{
 		time.Date(2000, 1, 1, 0, 0, 0, 0, time.UTC),
@@ -89,6 +89,18 @@ func TestZZBoundedC09(t *testing.T) {
 					{"nowminus", "now() - " + lit, (&DurationLiteral{Val: now.Sub(ts)}).String()},
 					{"nowgt", "now() > " + lit, (&BooleanLiteral{Val: now.After(ts)}).String()},
 					{"noweq", "now() = " + lit, (&BooleanLiteral{Val: now.Equal(ts)}).String()},
+				}
+				if f.zoned {
+					// two spellings with different zone offsets: compared as instants, not as text
+					other := ts.Add(-30 * time.Minute).In(time.FixedZone("", 3*3600)).Format(f.layout)
+					shapes = append(shapes, struct {
+						name, text string
+						want     string
+					}{"strgt", lit + " > '" + other + "'", (&BooleanLiteral{Val: true}).String()},
+						struct {
+							name, text string
+							want     string
+						}{"strlt", lit + " < '" + other + "'", (&BooleanLiteral{Val: false}).String()})
 				}
 				for _, sh := range shapes {
 					total++
